@@ -83,7 +83,13 @@ case "$ID" in
     ;;
 esac
 
-if ! go build -tags verif $RACE $OVERLAY -o "$BUILD/$id_lc" "./cmd/$id_lc" 2>"$BUILD/build.log"; then
+TAGS="verif"
+if [ "$ID" = C08 ]; then
+  # the request-id counter hook lives behind its own tag; fall back to the other hooks when a
+  # tree that restructured the counter no longer compiles with it
+  if go build -tags "verif verifmsgid" -o "$BUILD/$id_lc" "./cmd/$id_lc" 2>/dev/null; then TAGS="verif verifmsgid"; fi
+fi
+if ! go build -tags "$TAGS" $RACE $OVERLAY -o "$BUILD/$id_lc" "./cmd/$id_lc" 2>"$BUILD/build.log"; then
   cat "$BUILD/build.log" >&2
   if [ -n "$OVERLAY" ] && grep -q "harness/gen/" "$BUILD/build.log"; then
     violation_file "generated-code-does-not-compile" "$BUILD/build.log"; exit 1
